@@ -157,6 +157,36 @@ func genC13(seed uint64, index int, tier string) *run.Plan {
 			p.Stalls = append(p.Stalls, st)
 		}
 	}
+	if g.Intn(4) == 0 {
+		// goroutines descheduled right after a critical section, before their next statement: a waiter between
+		// subscribe and its select (heads arrive in its one-slot channel while nobody listens), a head stored in the
+		// connection but published late (publications of one connection overtake each other), a Run loop between
+		// two phases. No lock request opens these windows.
+		bm := p.P["block_ms"]
+		if g.Intn(2) == 0 {
+			p.Stalls = append(p.Stalls, core.Stall{Kind: "unlock", Role: "execC13", Site: "(*ConnPool).subscribe", Nth: 1 + g.Intn(3), Every: 1 + g.Intn(2),
+				DelayMs: []int{bm / 3, bm, bm + bm/2, bm * 2}[g.Intn(4)] + g.Intn(9)})
+			p.Stalls = append(p.Stalls, core.Stall{Kind: "unlock", Role: []string{"(*connection).Run", "execC13", ""}[g.Intn(3)], Site: "(*connection).SetMasterHead", Nth: 1 + g.Intn(6), Every: 1 + g.Intn(3),
+				DelayMs: []int{bm / 2, bm, bm + bm/3, bm * 2}[g.Intn(4)] + g.Intn(9)})
+			// ... met by callers that ask the best connection for its head and wait for the next block, over and over
+			c := p.P["callers"]
+			p.P["callers"] = c + 2
+			per := bm/2 + g.Intn(bm)
+			for i, at := 0, g.Intn(per); i < 60 && at < total; i, at = i+1, at+per {
+				p.Ops = append(p.Ops, run.Op{Kind: "mcinfo", Caller: c, AtMs: at})
+			}
+			per = bm + g.Intn(bm)
+			for i, at := 0, g.Intn(per); i < 40 && at < total; i, at = i+1, at+per {
+				p.Ops = append(p.Ops, run.Op{Kind: "wait", Caller: c + 1, AtMs: at, A: g.Intn(2), B: []int{bm / 3, bm / 2, bm}[g.Intn(3)] + g.Intn(7)})
+			}
+		} else {
+			n := 1 + g.Intn(2)
+			for i := 0; i < n; i++ {
+				p.Stalls = append(p.Stalls, core.Stall{Kind: "unlock", Role: c13roles[g.Intn(len(c13roles))], Site: c13sites[g.Intn(len(c13sites))], Nth: 1 + g.Intn(8),
+					DelayMs: []int{1, bm / 2, bm, bm * 3}[g.Intn(4)] + g.Intn(5)})
+			}
+		}
+	}
 	return p
 }
 
@@ -345,6 +375,19 @@ func execC13(t *testing.T, w *core.World, p *run.Plan, r *run.Result) {
 	subAt := map[uint64]time.Duration{}
 	if !p.Free {
 		w.Sched.OnGrant = func(rq *core.LockReq) {
+			if rq.Yield {
+				// a waiter parked right after subscribe released the lock: its timer starts when it resumes
+				if strings.HasSuffix(rq.Site, "(*ConnPool).subscribe") {
+					mu.Lock()
+					subAt[rq.Gid] = w.Now()
+					mu.Unlock()
+					w.Probe("waiter-resumed-after-being-parked-between-subscribe-and-select")
+				}
+				if strings.HasSuffix(rq.Site, "(*connection).SetMasterHead") {
+					w.Probe("head-publication-resumed-after-being-parked-behind-the-connection-lock")
+				}
+				return
+			}
 			if rq.Write && strings.HasSuffix(rq.Site, "(*ConnPool).updateBest") {
 				cur = &refresh{gid: rq.Gid, before: pl.SimSnapshot(), judged: true, atomic: w.Ch.Choose(3) != 0}
 			}
@@ -531,7 +574,8 @@ func execC13(t *testing.T, w *core.World, p *run.Plan, r *run.Result) {
 	// find the head when it subscribes); a stalled Run / connection goroutine legitimately delays notifications
 	poolSideStalled := false
 	for _, st := range p.Stalls {
-		if st.Role != "execC13" {
+		// (a caller parked between storing a head in its connection and publishing it is the publication being late)
+		if st.Role != "execC13" || (st.Kind == "unlock" && strings.Contains(st.Site, "SetMasterHead")) {
 			poolSideStalled = true
 		}
 	}
@@ -1103,7 +1147,10 @@ func execC13(t *testing.T, w *core.World, p *run.Plan, r *run.Result) {
 				// head to the waiter takes no simulated time; stalls that ended earlier only postponed it to their end)
 				stalledAtDeadline := false
 				for _, sw := range w.Sched.Windows {
-					if (!strings.Contains(sw.Role, "execC13") || sw.Holding) && sw.From < trueDeadline && sw.To > trueDeadline-time.Millisecond {
+					// (a caller of the masterchain-info client that is parked between storing the head in the connection and
+					// publishing it is the publication being late, whoever's goroutine it is)
+					latePublication := sw.AfterRelease && strings.Contains(sw.Site, "SetMasterHead")
+					if (!strings.Contains(sw.Role, "execC13") || sw.Holding || latePublication) && sw.From < trueDeadline && sw.To > trueDeadline-time.Millisecond {
 						stalledAtDeadline = true
 					}
 				}
